@@ -214,8 +214,10 @@ impl PathTpc {
                 for (prev, curr) in link.headings.windows(2).map(|x| (&x[0], &x[1])) {
                     let length = curr.offset - prev.offset;
 
+                    // wrap the heading change into [-pi, pi); `%` keeps the sign of the dividend
                     let curvature = (-uc::REV / 2.0
-                        + (curr.heading - prev.heading + uc::REV / 2.0) % uc::REV)
+                        + ((curr.heading - prev.heading + uc::REV / 2.0) % uc::REV + uc::REV)
+                            % uc::REV)
                         .abs()
                         / length;
                     let one_degree = uc::DEG / (uc::FT * 100.0);
